@@ -19,7 +19,7 @@ META = dict(
     assumptions=['the declared relation is read from Meta.extension_of / registry.get_extends at run time',
                  'monitoring cap of 300/600 steps: capped runs have no verdict and are excluded (counted)'],
     min_events={'quick': {'pairs': 80, 'valid_in_weaker_compared': 1500},
-                'thorough': {'pairs': 150, 'valid_in_weaker_compared': 60000}},
+                'thorough': {'pairs': 150, 'valid_in_weaker_compared': 40000}},
     budget=dict(quick=1500, thorough=7200),
     unit_timeout=dict(quick=900, thorough=3000),
 )
@@ -105,13 +105,13 @@ def check(weak, strong, Sw, Ss, arg, cfg, driver, order, out, tier, rng, label='
     # blame
     blame = 'declaration-or-undetermined'
     detail = {}
-    cw = search.find_countermodel(Sw, arg[0], arg[1], rng=rng, **pc.SEARCH[tier])
+    cw = search.find_countermodel(Sw, arg[0], arg[1], rng=rng, **dict(pc.SEARCH[tier], max_worlds=3))
     if cw.model is not None:
         c = shadow.culprit_of_valid(weak, arg, cw.model, dict(cfg, max_steps=pc.CAP[tier], order=order))
         blame = 'weaker-logic-unsound'
         detail = dict(culprit_rule=(c or {}).get('rule'), weaker_family=Sw.base_name)
     else:
-        cs = search.find_countermodel(Ss, arg[0], arg[1], rng=rng, **pc.SEARCH[tier])
+        cs = search.find_countermodel(Ss, arg[0], arg[1], rng=rng, **dict(pc.SEARCH[tier], max_worlds=3))
         if cs.model is None and cs.complete:
             blame = 'stronger-logic-incomplete'
         elif cs.model is not None:
